@@ -832,6 +832,9 @@ class Interp:
         if isinstance(r, ModuleInfo):
             return Val(kind="module", extra=r, dim=D0)
         if isinstance(r, tuple) and r[0] == "ext":
+            c = self.np.ext_constant(self.np.canonical(r[1]))
+            if c is not None:
+                return c
             return Val(kind="ext", ext=r[1], dim=D0)
         if isinstance(r, tuple) and r[0] == "const":
             return self.eval_module_const(r[1], r[2], name)
@@ -1640,7 +1643,7 @@ class Interp:
         st.env = env
         self.frames.append(frame)
         self.emit(st, "enter", node, callee=fn, entry=False, selfobj=bound_self.obj if bound_self is not None else None,
-                  args=env, role=role, argvals=list(args))
+                  args=dict(env), role=role, argvals=list(args), kwvals=dict(kwargs))
         if isinstance(fn.node, ast.Lambda):
             try:
                 v = self.ev(fn.node.body, st)
